@@ -347,18 +347,35 @@ fn handle(line: &str) -> String {
                 }
                 None => skip(),
             };
+            // a panic of the analysis / emission stage (it runs last) must not lose the formatter's
+            // result: the pass is repeated without that stage and the SystemVerilog reported as failed
+            let run = |txt: &str, want_fmt: bool| -> Result<(Pass, Option<String>), Fail> {
+                match pass(&cfg, txt, wt, want_fmt, ws) {
+                    Err(Fail::Panic(m)) if ws => match pass(&cfg, txt, wt, want_fmt, false) {
+                        Ok(p) => Ok((p, Some(fail_str(&Fail::Panic(m))))),
+                        Err(e) => Err(e),
+                    },
+                    Ok(p) => Ok((p, None)),
+                    Err(e) => Err(e),
+                }
+            };
             // pass over x
-            let p1 = match pass(&cfg, &text, wt, true, ws) {
+            let (p1, sv_err1) = match run(&text, true) {
                 Ok(p) => p,
                 Err(Fail::Parse) => return "PARSE-ERROR".to_string(),
                 Err(Fail::Panic(m)) => return format!("PANIC {}", m.replace('\n', " ")),
             };
             let f1 = p1.fmt.clone().unwrap();
             let tx = opt(p1.tokens, false);
-            let sx = opt(p1.sv, true);
+            let sx = sv_err1.unwrap_or_else(|| opt(p1.sv, true));
             // pass over f1 = fmt(x): f2 = fmt(f1), its tokens and its SystemVerilog
-            let (f2s, f2, tf, sf) = match pass(&cfg, &f1, wt, wi, ws) {
-                Ok(p) => (p.fmt.clone(), opt(p.fmt, true), opt(p.tokens, false), opt(p.sv, true)),
+            let (f2s, f2, tf, sf) = match run(&f1, wi) {
+                Ok((p, sv_err)) => (
+                    p.fmt.clone(),
+                    opt(p.fmt, true),
+                    opt(p.tokens, false),
+                    sv_err.unwrap_or_else(|| opt(p.sv, true)),
+                ),
                 Err(e) => (None, fail_str(&e), fail_str(&e), fail_str(&e)),
             };
             // when f2 != f1: f3 = fmt(f2) and, with vertical_align on, the two passes with it off
